@@ -16,7 +16,12 @@ import (
 	"time"
 )
 
-var ufSigs = map[string]string{}
+var ufSigs = map[string]string{
+	"sl.arr": "(Int) Int", "sl.off": "(Int) Int", "sl.len": "(Int) Int", "mk.slice": "(Int Int Int) Int",
+	"if.tag": "(Int) Int", "if.ref": "(Int) Int", "mk.iface": "(Int Int) Int", "clo.fn": "(Int) Int",
+	"card": "((Array Int Bool)) Int", "str.concat": "(Int Int) Int", "str.hasprefix": "(Int Int) Bool",
+	"str.ofbytes": "(Int) Int", "bytes.ofstr": "(Int) Int", "str.len": "(Int) Int",
+}
 var ufMu sync.Mutex
 
 // UF builds an application of an uninterpreted function and registers its signature.
@@ -72,6 +77,9 @@ func (q *Query) Text(withModel bool) string {
 	b.WriteString("(set-option :produce-models true)\n(set-logic ALL)\n")
 	var body strings.Builder
 	for _, a := range q.Assume {
+		if q.ExpectSat && strings.Contains(a.S, "(forall ") {
+			continue // reachability checks are done modulo quantified assumptions
+		}
 		body.WriteString("(assert ")
 		body.WriteString(a.S)
 		body.WriteString(")\n")
@@ -102,6 +110,9 @@ func (q *Query) Text(withModel bool) string {
 	}
 	if used["str.ofbytes"] && used["bytes.ofstr"] {
 		axioms = append(axioms, "(assert (forall ((s Int)) (= (str.ofbytes (bytes.ofstr s)) s)))")
+	}
+	if q.ExpectSat {
+		axioms = nil
 	}
 	for _, ax := range axioms {
 		for _, s := range symRe.FindAllString(ax, -1) {
